@@ -60,6 +60,7 @@ type World struct {
 	Forks   []*forkRep
 	Chain   []*chainBlock // index = height-1
 	History [][]byte
+	Parked  []string // hex of genuine txs that passed some node's mempool check and were not put into a block yet
 
 	cur      *BlockStep
 	curH     int64
@@ -105,6 +106,20 @@ func (w *World) logf(f string, a ...interface{}) { w.Log = append(w.Log, fmt.Spr
 func replicaFamily(check string) bool {
 	for _, p := range []string{"replica.", "crash.", "reopen.", "apply.", "open.", "side.panic", "harness."} {
 		if strings.HasPrefix(check, p) {
+			return true
+		}
+	}
+	return false
+}
+
+// modelOffTrack: some verdict so far says that the model and the block producer disagree (verdicts about
+// crashed images or about the node's agreement with itself do not).
+func (w *World) modelOffTrack() bool {
+	if w.modelDiverged {
+		return true
+	}
+	for _, v := range w.Viol {
+		if !selfConsistencyCheck(v.Check) {
 			return true
 		}
 	}
@@ -647,14 +662,31 @@ func (w *World) reportApplyError(r *Replica, err error, h int64) {
 		w.Probes.Hit("valset.empty-attempt")
 		w.logf("END empty validator set at h=%d", h)
 	} else if strings.Contains(err.Error(), "validator updates") || strings.Contains(err.Error(), "commit failed for application") {
-		w.violate("apply.valupdates", []string{"C10"}, h, "replica %s: engine rejected validator updates: %v", r.Name, err)
-	} else if isLeader {
+		w.violate("apply.valupdates", w.valUpdateProps(r), h, "replica %s: engine rejected validator updates: %v", r.Name, err)
+	} else if isLeader && (strings.Contains(err.Error(), "Block.Header") || strings.Contains(err.Error(), "LastCommit") || strings.Contains(err.Error(), "invalid block")) {
+		// the block itself (built by the harness from the producer's own state) does not validate
 		w.violate("harness.apply", []string{"HARNESS"}, h, "leader rejected its own block: %v", err)
+	} else if isLeader {
+		// the block validated; what the engine refuses is something the application answered while executing it
+		// (in v0.34 that is the validator updates: key type and size, power, membership)
+		w.violate("apply.valupdates", w.valUpdateProps(r), h, "replica %s: the engine cannot use what the application returned for its own block: %v", r.Name, err)
 	} else {
 		// the real engine's validateBlock compares app hash, results hash and validator hashes
 		w.violate("apply.diverged", []string{"C01"}, h, "replica %s cannot apply the leader's block: %v", r.Name, err)
 	}
 	w.Fatal = true
+}
+
+// valUpdateProps: updates the engine refuses break C10 ("every update is well-formed"); on a reopened node
+// they also break restart equivalence.
+func (w *World) valUpdateProps(r *Replica) []string {
+	props := []string{"C10"}
+	for ri, x := range w.Reps {
+		if x == r && w.restarted[ri] {
+			props = append(props, "C07")
+		}
+	}
+	return props
 }
 
 func panicShape(pe *PanicError) string {
